@@ -69,7 +69,12 @@ class CompositeOperation(Generic[OperationType]):
         Displacement
             The combined operation to perform on the atoms.
         """
-        return np.sum([op.calculate(context) for op in self.operations], axis=0)
+        total: Any = 0.0
+
+        for op in self.operations:
+            total = total + np.asarray(op.calculate(context))
+
+        return total
 
     @overload
     def __add__(
